@@ -43,7 +43,7 @@ func genC05(t *rapid.T) C05Case {
 	c.MW = rapid.SampledFrom([]int{0, 0, 1, 2}).Draw(t, "mw")
 	n := rapid.IntRange(1, 12).Draw(t, "nops")
 	for i := 0; i < n; i++ {
-		ops := []string{"notify", "notify", "notify", "broadcast", "filtered", "roots", "roots", "rootspair", "close", "reopen"}
+		ops := []string{"notify", "notify", "notify", "broadcast", "filtered", "roots", "roots", "rootspair", "close", "reopen", "burst"}
 		if c.Kind != 0 {
 			ops = []string{"roots", "roots", "roots", "rootspair", "notify"}
 		}
@@ -86,14 +86,15 @@ func ntC05(c C05Case) (bool, []string) {
 
 // refSess is a reference peer's session: a listening stream plus the means to post.
 type refSess struct {
-	id       string
-	stream   *LiveResp // Streamable GET / legacy /sse
-	endpoint string    // legacy
-	consumed int       // events already accounted for
-	open     bool
-	expect   []string // nonces expected on the current stream since it was opened (in order)
-	stdio    *Conn
-	seenReq  map[string]bool // ids of server-issued requests already attributed to an operation
+	id        string
+	stream    *LiveResp // Streamable GET / legacy /sse
+	endpoint  string    // legacy
+	consumed  int       // events already accounted for
+	open      bool
+	expect    []string // nonces expected on the current stream since it was opened (in order)
+	stdio     *Conn
+	seenReq   map[string]bool // ids of server-issued requests already attributed to an operation
+	unordered bool            // the expected nonces were sent concurrently: their order on the stream is open
 }
 
 type c05World struct {
@@ -285,6 +286,70 @@ func execC05(c C05Case) *Failure {
 			if cnt != wantN {
 				return Failf("C05/"+op.Op+"-count", "%s: reported %d sessions reached, %d selected sessions have an open stream", where, cnt, wantN)
 			}
+		case "burst":
+			// several goroutines broadcast and send filtered notifications at the same time (one of the filters consults the
+			// server's session list while it is being asked): every open session gets every one of them, once
+			if c.Kind != 0 {
+				continue
+			}
+			for _, x := range cw.sess {
+				if x.open {
+					if f := cw.drain(x, where); f != nil {
+						return f
+					}
+				}
+			}
+			wantN := 0
+			for _, x := range cw.sess {
+				if x.open {
+					wantN++
+				}
+			}
+			var bwg sync.WaitGroup
+			var bmu sync.Mutex
+			var all []string
+			badCount := ""
+			for g := 0; g < 3; g++ {
+				bwg.Add(1)
+				go func(g int) {
+					defer bwg.Done()
+					for k := 0; k < 4; k++ {
+						n := fmt.Sprintf("%s-g%dk%d", nonce, g, k)
+						var cnt int
+						if (g+k)%2 == 0 {
+							cnt, _ = w.Srv.BroadcastNotification("notifications/verif", map[string]interface{}{"nonce": n})
+						} else {
+							cnt, _, _ = w.Srv.SendFilteredNotification("notifications/verif", map[string]interface{}{"nonce": n}, func(id string) bool {
+								if g == 1 {
+									w.Srv.GetActiveSessions()
+								}
+								return true
+							})
+						}
+						bmu.Lock()
+						all = append(all, n)
+						if cnt != wantN {
+							badCount = fmt.Sprintf("send %s reported %d sessions reached, %d sessions have an open stream", n, cnt, wantN)
+						}
+						bmu.Unlock()
+					}
+				}(g)
+			}
+			bwg.Wait()
+			if badCount != "" {
+				return Failf("C05/burst-count", "%s: %s", where, badCount)
+			}
+			for _, x := range cw.sess {
+				if x.open {
+					x.expect = append([]string(nil), all...)
+					x.unordered = true
+					f := cw.drain(x, where)
+					x.unordered = false
+					if f != nil {
+						return f
+					}
+				}
+			}
 		case "close":
 			if c.Kind == 0 && s.open {
 				if f := cw.drain(s, where); f != nil {
@@ -382,6 +447,11 @@ func (cw *c05World) drain(s *refSess, where string) *Failure {
 			continue
 		}
 		got = append(got, m.Params.Nonce)
+	}
+	if s.unordered {
+		got, want = append([]string(nil), got...), append([]string(nil), want...)
+		sort.Strings(got)
+		sort.Strings(want)
 	}
 	if strings.Join(got, ",") != strings.Join(want, ",") {
 		key := "C05/delivery-mismatch"
